@@ -108,6 +108,7 @@ type FuncContract struct {
 	Inline   []string
 	Havoc    []string
 	Assigns  []string
+	Guards   [][]string // `guards p.mu p.f p.g`: the fields p.f, p.g are only stable while the lock p.mu is held (forgotten at every p.mu.Lock())
 	Rules    []string // effect rules that apply to this function
 	EffectCl []*EffectClause
 	Sel      *MethodSelector // non-nil: template expanded over a method set
@@ -129,6 +130,18 @@ func (fc *FuncContract) preFunc() string   { return "verif_pre_" + fc.base() }
 func (fc *FuncContract) postFuncs() []postFn { return fc.posts }
 func (fc *FuncContract) invFuncs(loop int) []string {
 	return fc.invs[loop]
+}
+
+// usesReturns: some effect clause of the contract mentions the pseudo-event returns().
+func (fc *FuncContract) usesReturns() bool {
+	for _, ec := range fc.EffectCl {
+		for _, p := range ec.patterns() {
+			if p != nil && p.returns {
+				return true
+			}
+		}
+	}
+	return false
 }
 
 func (fc *FuncContract) hasProp(id string) bool {
@@ -290,6 +303,11 @@ func parseContractText(text, path, pkgPath string) ([]*FuncContract, error) {
 			last = nil
 		case word == "assigns":
 			cur.Assigns = append(cur.Assigns, strings.Fields(rest)...)
+			last = nil
+		case word == "guards":
+			if fs := strings.Fields(rest); len(fs) >= 2 {
+				cur.Guards = append(cur.Guards, fs)
+			}
 			last = nil
 		case word == "rule":
 			cur.Rules = append(cur.Rules, strings.Fields(rest)...)
